@@ -454,11 +454,15 @@ def check_probe_membership(case, domain, out, stats, n=400):
         prow = {v: [row[i]] for i, (v, _) in enumerate(pspace)}
         try:
             q = G.probe_points(dom, prow, per, rng)
+            sq = G.structured_probes(dom, prow, rng)
+            if sq is not None:
+                q = {v: np.concatenate([q[v], sq[v]], axis=0) if v in sq else q[v] for v in q}
         except Exception:
             return
+        per_row = len(next(iter(q.values())))
         for i, (v, d) in enumerate(pspace):
             if v not in q:
-                q[v] = np.full((per, d), float(row[i]))
+                q[v] = np.full((per_row, d), float(row[i]))
         tabs.append(q)
     P = {v: np.concatenate([t[v] for t in tabs], axis=0) for v in tabs[0]}
     sp_names = [v for v, _ in G.space(dom)]
@@ -577,6 +581,156 @@ def check_normals(case, domain, pts, P, out, stats, h=2e-3):
                         along=float(mp[i]), against=float(mm[i])))
 
 
+_CLOSED_RANDOM = ("iv", "circ", "par", "sph", "pt")
+
+
+def _count_class(dom):
+    """'exact' (ceil(d*mu) rows), 'expect' (rejection based / Boolean: only in expectation) or None."""
+    base = dom
+    while base["k"] in ("transl", "rot"):
+        base = base["d"]
+    if base["k"] in _CLOSED_RANDOM:
+        return "exact"
+    if base["k"] in ("bnd", "bleft", "bright") and base["d"]["k"] in ("iv", "circ", "par", "tri", "sph"):
+        return "exact"
+    if base["k"] == "tri":
+        return "expect"
+    if base["k"] in ("union", "cut", "inter") and not G.is_boundary(base) and "pt" not in G.kinds(base):
+        return "expect"
+    return None
+
+
+def true_measure(dom, prow, rng, n=400000):
+    """Measure of a solid by quadrature of the reference margin (relative MC error returned)."""
+    one = {v: np.asarray(val, float).reshape(1, -1) for v, val in prow.items()}
+    b, _ = G.box(dom, one)
+    lo, hi = b[0, 0::2], b[0, 1::2]
+    u = rng.random((n, len(lo))) * (hi - lo) + lo
+    P = {v: np.repeat(val, n, axis=0) for v, val in one.items()}
+    j = 0
+    for v, d in G.space(dom):
+        P[v] = u[:, j:j + d]
+        j += d
+    frac = float(np.mean(G.margin(dom, P) >= 0))
+    vol = float(np.prod(hi - lo)) * frac
+    rel = math.sqrt(max(frac * (1 - frac), 1e-12) / n) / max(frac, 1e-12)
+    return vol, rel
+
+
+def check_density_count(case, pts, out, stats):
+    """C10 (ii): density sampling yields density*measure points (exactly for closed-form
+    primitives, at most that many on a grid)."""
+    e = case["entry"]
+    if not e.get("d") or e.get("filter") or len(case.get("prows") or []) > 1:
+        return
+    dom = case["dom"]
+    cls = _count_class(dom)
+    if cls is None:
+        return
+    pspace = [tuple(x) for x in (case.get("pspace") or [])]
+    prows = case.get("prows") or []
+    P = B.repeat_rows(pspace, prows, 1) if prows else {}
+    if any(v not in P for v in G.free_vars(dom)):
+        return
+    mu = G.measure(dom, P, 1)
+    if mu is None:
+        return
+    d = float(e["d"])
+    want_lo = math.ceil(d * float(mu[0]) * (1 - 1e-6))
+    want_hi = math.ceil(d * float(mu[0]) * (1 + 1e-6))
+    rows = len(pts.as_tensor)
+    grid = (e.get("method") == "grid") or (e.get("cls") == "Grid")
+    stats["density_judged"] = stats.get("density_judged", 0) + 1
+    if grid:
+        # every leaf of a Boolean expression rounds its own share up
+        slack = sum(1 for k_ in G.kinds(dom) if k_ in ("iv", "circ", "par", "tri", "sph")) - 1
+        if not ((1 if want_hi >= 16 else 0) <= rows <= want_hi + max(slack, 0)):
+            out.append(viol("C10", "density-grid-count", "not-in-[0|1,ceil(d*mu)]", "", rows=rows, want=want_hi))
+    elif cls == "exact":
+        if not (want_lo <= rows <= want_hi):
+            out.append(viol("C10", "density-count", "rows!=ceil(d*mu)", "", rows=rows, want=want_hi,
+                            d=d, mu=float(mu[0])))
+
+
+def check_volume_direct(case, domain, out, stats):
+    """C10: volume(params) equals the reference measure, one positive value per row."""
+    dom = case["dom"]
+    pspace = [tuple(x) for x in (case.get("pspace") or [])]
+    prows = case.get("prows") or []
+    params = B.params_points(pspace, prows)
+    P = B.repeat_rows(pspace, prows, 1) if prows else {}
+    if any(v not in P for v in G.free_vars(dom)):
+        return
+    rows = max(1, len(prows))
+    mu = G.measure(dom, P, rows)
+    if mu is None:
+        return
+    try:
+        vol = domain.volume(params)
+    except Exception as ex:
+        out.append(viol("C10", "volume-call", "raises:" + type(ex).__name__, innermost_site(ex.__traceback__),
+                        msg=str(ex)[:160]))
+        return
+    v = torch.as_tensor(vol).double().reshape(-1).numpy()
+    stats["volumes_direct"] = stats.get("volumes_direct", 0) + 1
+    if len(v) != rows and not (len(v) == 1 and np.ptp(mu) <= 1e-12 * max(1.0, abs(float(mu[0])))):
+        out.append(viol("C10", "volume", "rows", "", got=len(v), want=rows))
+        return
+    if not np.all(v > 0):
+        out.append(viol("C10", "volume", "not-positive", "", value=float(v.min())))
+        return
+    if not np.allclose(v, mu[:len(v)], rtol=1e-4, atol=1e-6):
+        i = int(np.argmax(np.abs(v - mu[:len(v)])))
+        out.append(viol("C10", "volume", "value", "", got=float(v[i]), want=float(mu[i]), root=dom["k"]))
+
+
+def check_bbox_tight(case, domain, out, stats):
+    """C18 (ii): for primitives of positive measure at a single row the box is tight."""
+    dom = case["dom"]
+    prows = case.get("prows") or []
+    if len(prows) > 1 or dom["k"] not in ("iv", "circ", "par", "tri", "sph"):
+        return
+    pspace = [tuple(x) for x in (case.get("pspace") or [])]
+    P = B.repeat_rows(pspace, prows, 1) if prows else {}
+    if any(v not in P for v in G.free_vars(dom)):
+        return
+    if not P:
+        P = {"_": np.zeros((1, 1))}
+    ref, tight = G.box(dom, P)
+    if not tight:
+        return
+    try:
+        bb = domain.bounding_box(B.params_points(pspace, prows))
+    except Exception:
+        return  # reported by check_bbox
+    bb = torch.as_tensor(bb).double().reshape(-1).numpy()
+    stats["bbox_tight_judged"] = stats.get("bbox_tight_judged", 0) + 1
+    if len(bb) == ref.shape[1] and not np.allclose(bb, ref[0], rtol=1e-5, atol=1e-5):
+        out.append(viol("C18", "tight", "box-not-tight", "", got=bb.tolist(), want=ref[0].tolist()))
+
+
+def check_normalization(case, domain, pts, P, out, stats):
+    """C18 (iii): a NormalizationLayer built from the box maps the samples into [-1,1]^d."""
+    dom = case["dom"]
+    if P is None or G.free_vars(dom) or G.is_boundary(dom) or case.get("prows") or "pt" in G.kinds(dom):
+        return
+    if _has_dependent_product(dom) or len(pts.as_tensor) == 0:
+        return
+    import torchphysics as tp
+    try:
+        layer = tp.models.NormalizationLayer(domain)
+        sp_names = [v for v, _ in G.space(dom)]
+        o = layer(B.Points(pts[:, sp_names].as_tensor.clone(), pts[:, sp_names].space)).as_tensor
+    except Exception as ex:
+        out.append(viol("C18", "normalization", "raises:" + type(ex).__name__, innermost_site(ex.__traceback__),
+                        msg=str(ex)[:160]))
+        return
+    stats["normalization_judged"] = stats.get("normalization_judged", 0) + 1
+    m = float(o.abs().max())
+    if m > 1 + 1e-4:
+        out.append(viol("C18", "normalization", "outside-[-1,1]", "", worst=m))
+
+
 def _has_dependent_product(node):
     if node["k"] == "prod" and (G.free_vars(node["a"]) & {v for v, _ in G.space(node["b"])}):
         return True
@@ -619,6 +773,11 @@ def run_case(case, props=("C01", "C02", "C05", "C06", "C10", "C18"), monitors=Tr
                 try:
                     if "C18" in props:
                         check_bbox(case, domain, P, out, stats)
+                        check_bbox_tight(case, domain, out, stats)
+                        check_normalization(case, domain, pts, P, out, stats)
+                    if "C10" in props:
+                        check_density_count(case, pts, out, stats)
+                        check_volume_direct(case, domain, out, stats)
                     if "C05" in props:
                         check_own_membership(case, domain, pts, P, out, stats)
                         if dom_probe_ok(case["dom"]):
